@@ -76,8 +76,12 @@ VF_HARNESS(reinterpret_in_place) {   // reinterpret_array_cast<U>(): each elemen
   auto rl = v.reinterpret_array_cast<long>();
   vf_assert(reinterpret_cast<char const*>(&elem_brackets(rl, i)) == reinterpret_cast<char const*>(&g_e[c]), "reinterpretation as a scalar of the same size designates the same bytes");
   auto const& cv = v;
+#if DIM >= 2   // the 1-D specialisation has neither as_const() nor const_array_cast()
   vf_assert(&elem_brackets(cv.as_const(), i) == &g_e[c] && same_sizes(cv.as_const(), s), "as_const keeps extents and element identity");
   vf_assert(&elem_brackets(cv.const_array_cast(), i) == &g_e[c], "const_array_cast keeps element identity");
+#else
+  (void)cv;
+#endif
   vf_assert(&elem_brackets(v.static_array_cast<E const>(), i) == &g_e[c], "static_array_cast keeps element identity");
   vf_reach("reinterpret_in_place");
 }
